@@ -537,6 +537,9 @@ def selftest_determinism(prop, n=300):
 def main():
     if len(sys.argv) >= 3 and sys.argv[1] == "replay":
         return replay_cmd(sys.argv[2])
+    if len(sys.argv) >= 3 and sys.argv[1] == "selftest" and sys.argv[2] == "mutants":
+        # sensitivity self-test: every seeded change in a throw-away worktree against the quick check of its property
+        os.execv(os.path.join(VERIF, "tools", "all_mutants.sh"), ["all_mutants.sh"] + sys.argv[3:])
     if len(sys.argv) >= 4 and sys.argv[1] == "selftest" and sys.argv[2] == "determinism":
         return selftest_determinism(sys.argv[3], int(sys.argv[4]) if len(sys.argv) > 4 else 300)
     prop, tier = sys.argv[1], (sys.argv[2] if len(sys.argv) > 2 else os.environ.get("VERIF_TIER", "quick"))
